@@ -66,7 +66,11 @@ func ruleFragIDAtomic(r *core.Report, ruleID string) {
 		return false
 	}
 	n := 0
-	for _, fn := range core.WithAnons(tell) {
+	for _, fn := range p.ModFuncs {
+		// Tell itself or any helper of the package that it delegates the allocation to
+		if fn.Pkg != tell.Pkg || strings.Contains(fn.String(), "_test") {
+			continue
+		}
 		for _, in := range core.AllInstrs(fn) {
 			lk, ok := in.(*ssa.Lookup)
 			if !ok || !isIDs(lk.X) {
@@ -92,7 +96,7 @@ func ruleFragIDAtomic(r *core.Report, ruleID string) {
 		}
 	}
 	if n == 0 {
-		r.Fail("%s: no read of fragswarm's msgIDs found in Tell (anchor stale)", ruleID)
+		r.Fail("%s: no read of fragswarm's msgIDs found in the package (anchor stale)", ruleID)
 	}
 	// mbapp: ids come from one atomic add
 	if gc := needFn(r, "p/mbapp", "Swarm.getCounter"); gc != nil {
